@@ -616,7 +616,7 @@ pub fn run() {
             }
         }
     }
-    let (nq, depth, n) = t.pick((4usize, 30usize, 2000usize), (5usize, 60usize, 30_000usize));
+    let (nq, depth, n) = t.pick((4usize, 30usize, 6000usize), (5usize, 60usize, 60_000usize));
     par_cases("clifford-t", n, move |r, i| {
         let mut p = CircParams::unitary(nq, depth, PhPool::Exact);
         p.ccz = false;
@@ -682,9 +682,8 @@ pub fn run() {
         c.harness_error("QVMON_CLI not set (run through ./check)");
         return;
     };
-    let dir = format!("/verif/harness/target/tmp/c03-{}", std::process::id());
-    let _ = std::fs::create_dir_all(&dir);
-    let ncli = t.pick(100usize, 3000usize);
+    let dir = crate::fw::scratch_dir("c03");
+    let ncli = t.pick(200usize, 4000usize);
     {
         let dir = dir.clone();
         par_cases("cli-opt", ncli, move |r, i| {
@@ -693,7 +692,25 @@ pub fn run() {
             p.ccz = r.chance(0.3);
             // pp is not in the QASM prelude the parser accepts
             p.pp = false;
-            let circ = gen_circuit(r, &p);
+            let mut circ = gen_circuit(r, &p);
+            if pool == PhPool::Float && r.chance(0.5) {
+                // denominators above 2^12: the optimised circuit goes through printed text
+                for g in circ.gates.iter_mut() {
+                    if let G::Rz(_, ph) | G::Rx(_, ph) = g {
+                        if r.chance(0.6) {
+                            let d = *r.pick(&[4097i64, 5000, 8192, 10_007, 65_537, 1 << 20, (1 << 31) - 1]);
+                            let k = match r.below(3) {
+                                0 => 1,
+                                1 => d - 1,
+                                _ => r.range(-d + 1, d),
+                            };
+                            let q = quizx::phase::Phase::new(num::rational::Rational64::new(k, d)).to_rational();
+                            *ph = (*q.numer(), *q.denom());
+                        }
+                    }
+                }
+                ctx().count("cli-opt:with-phase-denominators-above-4096", 1);
+            }
             let rf = reference(&circ);
             check_cli("cli-opt", i, &circ, &rf, &cli, &dir);
             let cx = ctx();
